@@ -203,7 +203,8 @@ def gen_interval(rng, axis, levelmax, kind=None):
 # ---- the kind of callable a predicate is handed over as (a selection entry may be any callable)
 
 # "int01": the predicate answers with 0/1 integers instead of booleans (criteria are combined by a product, so this is legal)
-CALLABLE_KINDS = ["function", "function", "function", "partial", "object", "method", "int01"]
+# "ndarray": the predicate answers with a plain boolean ndarray (e.g. it compares x.values with bare numbers)
+CALLABLE_KINDS = ["function", "function", "function", "partial", "object", "method", "int01", "ndarray"]
 
 
 def _apply(f, x):
@@ -231,6 +232,13 @@ def _apply01(f, x):
     return np.where(np.asarray(r), 1, 0)
 
 
+def _apply_nd(f, x):
+    import numpy as np
+
+    r = f(x)
+    return np.asarray(getattr(r, "values", r)).astype(bool)
+
+
 def as_callable(f, kind):
     """The same predicate as a plain function, a functools.partial, an object with __call__, or a bound method."""
     import functools
@@ -245,4 +253,6 @@ def as_callable(f, kind):
         return _CallableObject(f).method
     if kind == "int01":
         return functools.partial(_apply01, f)
+    if kind == "ndarray":
+        return functools.partial(_apply_nd, f)
     raise ValueError(kind)
